@@ -131,6 +131,41 @@ def xml_target_sweep(res, nits, minl):
     return nchk
 
 
+def l6_source_sweep(res, nits, minl):
+    """source min / max PQ derived from L6 (generate -j with level6 and no source levels) over L6 minima 0..60 and a
+    spread, maxima around the preset peaks: the preset rule restated from the certified tables - a minimum up to
+    0.001 nits (<= 10) gives the code of 0.0001 nits, 0.005 nits (50) its own code, anything else 0; a peak of
+    1000 / 2000 / 4000 / 10000 nits gives its code, anything else the code of 1000 nits"""
+    import json
+    from .. import cli
+    w = cli.Work("c19l6")
+    nchk = nbad = 0
+    cases = [(k, 1000) for k in list(range(0, 61)) + [99, 100, 500, 1000, 5000, 10000]] + [(1, mx) for mx in (0, 1, 999, 1000, 1001, 1999, 2000, 2001, 3999, 4000, 4001, 9999, 10000)]
+    for cm in ("V40", "V29"):
+        for mn, mx in cases:
+            cfg = {"cm_version": cm, "length": 1, "level6": {"max_display_mastering_luminance": mx, "min_display_mastering_luminance": mn, "max_content_light_level": 0, "max_frame_average_light_level": 0}}
+            cj = w.write("c.json", json.dumps(cfg).encode())
+            ec, txt = cli.run(["generate", "-j", cj, "-o", w.path("o.bin")], w.dir)
+            if ec != "0":
+                res.violation("generate -j fails on a config with level6 %d / %d" % (mn, mx), {"fn": "l6-source", "min": mn, "max": mx, "output": txt.split("Stack backtrace")[0][-200:]})
+                continue
+            ec, txt = cli.run(["info", "-i", w.path("o.bin"), "-f", "0"], w.dir)
+            try:
+                d = json.loads(txt[txt.index("{"):])["vdr_dm_data"]
+                got = (d["source_min_pq"], d["source_max_pq"])
+            except Exception:
+                res.violation("info -f 0 unreadable after generate -j with level6", {"fn": "l6-source", "min": mn, "max": mx})
+                continue
+            want = (minl[1] if mn <= 10 else minl[50] if mn == 50 else 0, nits[mx] if mx in (1000, 2000, 4000, 10000) else nits[1000])
+            nchk += 1
+            if got != want:
+                nbad += 1
+                if nbad <= 3:
+                    res.violation("source levels derived from L6 (min %d/10000 nits, max %d nits, %s): generated %s, the preset rule on the ST 2084 codes gives %s" % (mn, mx, cm, got, want),
+                                  {"fn": "l6-source", "min": mn, "max": mx, "cm": cm, "generated": list(got), "reference": list(want)})
+    return nchk
+
+
 def run(res):
     # the implementation's outputs over the whole finite domain become the tables Coq certifies
     rc, out = C.build_harness()
@@ -175,11 +210,12 @@ def run(res):
         res.violation("nits_to_pq table is not monotonic", {"fn": "nits_to_pq", "what": "monotonicity"})
     nsum = summary_sweep(res)
     nxml = xml_target_sweep(res, nits, minl)
+    nl6 = l6_source_sweep(res, nits, minl)
     res.coverage.update({
-        "summary_codes_checked": nsum, "xml_target_values_checked": nxml,
+        "summary_codes_checked": nsum, "xml_target_values_checked": nxml, "l6_source_cases_checked": nl6,
         "evaluations": len(nits) + len(minl) + 2 * len(cn) + nsum,
         "distinct_nontrivial": len(set(nits)) + len(set(minl)) + len(cn),
-        "rule": "the implementation evaluated on the whole domain of the property: integer nits 0..10000, k/10000 nits for k=0..10000, all 4096 codes (code->nits as exact f64 value, and code->nits->code); every entry certified in Coq by Interval (24194 obligations inside 32 shard lemmas) and re-checked with a 60-digit decimal evaluation for the replay; `info --summary` on a list holding every 12-bit code as source min / max PQ (one mastering display pair per code, minimum and snapped peak compared with the reference); `generate --xml` on documents with custom target displays (L10 target min / max PQ against the certified tables over minimum luminances k/10000: the values whose double product falls below k and a sample in quick, every k in thorough); non-trivial = distinct table values",
+        "rule": "the implementation evaluated on the whole domain of the property: integer nits 0..10000, k/10000 nits for k=0..10000, all 4096 codes (code->nits as exact f64 value, and code->nits->code); every entry certified in Coq by Interval (24194 obligations inside 32 shard lemmas) and re-checked with a 60-digit decimal evaluation for the replay; `info --summary` on a list holding every 12-bit code as source min / max PQ (one mastering display pair per code, minimum and snapped peak compared with the reference); `generate --xml` on documents with custom target displays (L10 target min / max PQ against the certified tables over minimum luminances k/10000: the values whose double product falls below k and a sample in quick, every k in thorough); `generate -j` with level6 and no source levels over L6 minima 0..60 and peaks around the presets (derived source min / max PQ against the preset rule on the certified codes); non-trivial = distinct table values",
         "exhaustive": True,
         "samples": [{"nits": 100, "code": nits[100]}, {"min_nits": "50/10000", "code": minl[50]}, {"code": 2081, "nits_f64": "%d/%d" % cn[2081], "roundtrip": rt[2081]}],
         "interval_entries": len(nits) + len(minl) + len(cn),
